@@ -1292,10 +1292,26 @@ static void gen_expr(Node *node) {
   }
   }
 
-  gen_expr(node->rhs);
-  push();
-  gen_expr(node->lhs);
-  pop("%rdi");
+  Node *rhs = node->rhs;
+  while (rhs->kind == ND_CAST && is_integer(rhs->ty) && is_integer(rhs->lhs->ty))
+    rhs = rhs->lhs;
+
+  if (rhs->kind == ND_NUM) {
+    // With a constant right operand nothing is kept on the stack while
+    // the left operand is evaluated. `setjmp(env) == 0` depends on
+    // that: when longjmp returns there a second time, everything
+    // below the saved stack pointer has been overwritten.
+    gen_expr(node->lhs);
+    push();
+    gen_expr(node->rhs);
+    println("  mov %%rax, %%rdi");
+    pop("%rax");
+  } else {
+    gen_expr(node->rhs);
+    push();
+    gen_expr(node->lhs);
+    pop("%rdi");
+  }
 
   char *ax, *di, *dx;
 
